@@ -216,6 +216,9 @@ func pcMerge(ts ...string) string {
 	return s + `}`
 }
 
+// pcRecycle switches the validators to the recycling option (results are not pooled on this path).
+var pcRecycle bool
+
 type pcCase struct {
 	schema string
 	inst   string
@@ -421,7 +424,11 @@ func pcRun(prop, schema, inst string) (before, after any, valid bool, pan string
 			resetPools()
 		}
 	}()
-	res := validate.NewSchemaValidator(sch, nil, "", strfmt.Default).Validate(data)
+	var opts []validate.Option
+	if pcRecycle {
+		opts = append(opts, validate.WithRecycleValidators(true))
+	}
+	res := validate.NewSchemaValidator(sch, nil, "", strfmt.Default, opts...).Validate(data)
 	if !res.IsValid() {
 		return before, data, false, ""
 	}
@@ -501,10 +508,15 @@ func postWorker(c *hx.Ctx, prop string) int {
 				rep.Inc("invalid_skipped", 1)
 				continue
 			}
-			for _, pol := range []int{verifrt.PolicyLIFO, verifrt.PolicyFIFO} {
+			for _, pol := range []int{verifrt.PolicyLIFO, verifrt.PolicyFIFO, verifrt.PolicyLIFO + 10} {
+				pcRecycle = pol >= 10
+				if pcRecycle {
+					pol -= 10
+				}
 				verifrt.SetPoolPolicy(pol)
 				before, after, valid, pan := pcRun(prop, schema, it)
 				verifrt.SetPoolPolicy(verifrt.PolicyLIFO)
+				pcRecycle = false
 				rep.Inc("cases", 1)
 				if pan != "" {
 					sig := prop + " panic: " + pan
